@@ -13,7 +13,7 @@ from .common import log
 from .gamma import Gamma
 
 NANI = 1 << 29  # integer code of NaN / undefined for the scaled values
-FAMS = [("ints", "int"), ("shift", "int"), ("str", "int"), ("npint", "npint")]
+FAMS = [("ints", "int"), ("shift", "int"), ("str", "int"), ("npint", "npint"), ("descset", "int"), ("collide", "int")]
 
 
 def scaled(x):
@@ -49,6 +49,18 @@ def bundle(H, g, name):
     b["comps"] = get("connected_components", lambda: [sorted(iN(n) for n in c) for c in xgi.connected_components(H)], [])
     b["max"] = get("maximal", lambda: sorted(iE(e) for e in H.edges.maximal()), [])
     b["dups"] = get("duplicates", lambda: sorted(iE(e) for e in H.edges.duplicates()), [])
+
+    def degvec():
+        K, rd = xgi.degree_matrix(H, index=True)
+        lab = (lambda i: rd[i]) if rd else (lambda i, ns=list(H.nodes): ns[i])  # no edges: empty index map
+        return sorted([iN(lab(i)), int(K[i])] for i in range(len(K)))
+    b["degm"] = get("degree_matrix", degvec, [])
+    # simpliciality (defined without repeated edges; orderable labels): compared across realisations
+    norep = len({frozenset(m) for m in H._edge.values()}) == H.num_edges
+    b["simp"] = [scaled(get(f, lambda f=f: getattr(xgi, f)(H), float("nan"))) if norep else NANI
+                 for f in ("edit_simpliciality", "face_edit_simpliciality", "simplicial_fraction")]
+    b["sed"] = scaled(get("simplicial_edit_distance", lambda: xgi.simplicial_edit_distance(H, normalize=False), float("nan"))) \
+        if norep else NANI
     # layer 2: no TLA+ definition; compared across realisations.  Defined only on suitable inputs.
     connected = xgi.is_connected(H)
     b["katz"] = get("katz_centrality", lambda: pernode(xgi.katz_centrality(H), scaled), []) if connected else []
@@ -70,7 +82,7 @@ def _worker(args):
         rng = random.Random(seed_ * 472882027 + base + k)
         real, errs = [], []
         variants = obscore.edge_id_variants(j, rng)
-        for ri in range(4):
+        for ri in range(6):
             g = Gamma(*FAMS[ri % len(FAMS)])
             vname, emap = variants[ri % len(variants)]
             # the map is expressed in abstract ids, so the projection undoes it with the inverse map
@@ -90,7 +102,7 @@ def _worker(args):
             real.append(b)
             errs += e
         st = dict(j)
-        out.append({"rid": f"s{base + k}", "what": f"shape {base + k} x 4 realisations", "st": st, "real": real,
+        out.append({"rid": f"s{base + k}", "what": f"shape {base + k} x 6 realisations", "st": st, "real": real,
                     "anom": sorted(set(errs))})
     return out
 
@@ -108,7 +120,7 @@ def run(tier, seed_):
     with ProcessPoolExecutor(max_workers=jobs) as ex:
         for part in ex.map(_worker, [(shapes[i::jobs], i * 100000, seed_) for i in range(jobs) if shapes[i::jobs]]):
             recs += part
-    log(f"[C09] {len(recs)} abstract networks x 4 realisations ({t():.0f}s)")
+    log(f"[C09] {len(recs)} abstract networks x 6 realisations ({t():.0f}s)")
 
     def selftest(records, bad):
         r0 = next(r for r in records if r["rid"] not in bad and len(r["real"][1]["lcc"]) >= 2
